@@ -271,3 +271,112 @@ def _extra_rules(ctx, P):
                      "non-blocking while the library treats it as blocking - the next xcm_receive()/xcm_send() sleeps in poll()", loc=sb.loc(bad4[0]) if bad4[0] else sb.file)
     else:
         r4.ok("every failing exit of xcm_set_blocking leaves the flag as it was", "path exploration")
+
+    # a busy-wait is a wait: a loop that can go round without changing anything its condition reads spins until
+    # something outside the process happens (the control client reads, the peer sends) - inside a non-blocking call
+    r5 = ctx.rule("C05.R5", "every counted loop of the library changes something its condition reads on each way round (no busy-wait for an external event)")
+    check_loop_progress(P, r5)
+
+
+def check_loop_progress(P, rule):
+    """loops whose condition compares integer variables / fields / constants (`i < ctl->num_clients`, `sent < len`): on
+    every path from the condition round to the condition a store to one of those variables or fields happens - in the
+    function itself or in a same-file helper it calls (explored inline).  A structural necessary condition of
+    termination without waiting; loops over linked structures and loops that re-read memory through calls are not
+    concerned (no alarm)."""
+    from .. import seq as S
+    from ..report import Broken
+    CMP = ("<", "<=", ">", ">=", "!=")
+
+    def side(f, x):
+        n = f.nodes[f._strip0(x)]
+        if "cv" in n:
+            return ("const", None)
+        if n["k"] == "ref" and n.get("dk") in ("local", "param") and "*" not in (n.get("t") or ""):
+            return ("var", n.get("did"))
+        if n["k"] == "member" and n.get("field") and "*" not in (n.get("t") or ""):
+            return ("fld", n["field"])
+        return None
+    # a way round that sleeps in the kernel is a wait, not a busy-wait (whether it may wait at all is R1's question)
+    def sleeps(g, c, exts):
+        for x in exts:
+            if x in ALWAYS_BLOCK:
+                return True
+            if x in TIMEOUT_ARG:
+                ai = TIMEOUT_ARG[x]
+                if ai >= len(g.nodes[c]["args"]) or C.const_of(g, g.nodes[c]["args"][ai]) != 0:
+                    return True
+        return False
+    waiters = set()
+    changed = True
+    while changed:
+        changed = False
+        for g in P.functions:
+            if g in waiters:
+                continue
+            for c in g.calls():
+                ds, exts = P.callees(g, c)
+                if sleeps(g, c, exts) or any(d in waiters for d in ds):
+                    waiters.add(g)
+                    changed = True
+                    break
+    nloops = 0
+    for f in P.functions:
+        if not f.file.startswith(("libxcm/", "common/")):
+            continue
+        for b in f.blocks.values():
+            if not b.term or b.term.get("cond") is None or b.term["k"] not in ("ForStmt", "WhileStmt", "DoStmt"):
+                continue
+            n = f.nodes[f._strip0(b.term["cond"])]
+            if not (n["k"] == "bin" and n["op"] in CMP):
+                continue
+            sides = [side(f, n["l"]), side(f, n["r"])]
+            if None in sides or all(s_[0] == "const" for s_ in sides):
+                continue
+            vars_ = {s_[1] for s_ in sides if s_[0] == "var"}
+            flds = {s_[1] for s_ in sides if s_[0] == "fld"}
+            nloops += 1
+            rule.instance("%s: %s (%s)" % (f.qname, f.show(b.term["cond"])[:50], b.term["k"]))
+            H = b.id
+            bad = []
+
+            class Round(S.SeqRule):
+                max_depth = 2
+
+                def user0(s2, fn):
+                    return (False, False)        # (inside an iteration, a condition operand was stored since the last test)
+
+                def inline(s2, fn, nid, callee):
+                    return callee.static and callee.file == f.file and callee is not f
+
+                def on_store(s2, fn, st, nid, lhs, rhs, op):
+                    ln = fn.nodes[fn._strip0(lhs)]
+                    if (ln["k"] == "ref" and fn is f and ln.get("did") in vars_) or (ln["k"] == "member" and ln.get("field") in flds):
+                        return (st.user[0], True)
+                    return None
+
+                def on_call(s2, fn, st, nid, callees, exts):
+                    if sleeps(fn, nid, exts) or any(d in waiters for d in callees):
+                        return (st.user[0], True)
+                    return None
+
+                def on_branch(s2, fn, st, blk, cond, label):
+                    if fn is f and blk.id == H and label in ("T", "F"):
+                        inside, stored = st.user
+                        if inside and not stored and not bad:
+                            bad.append(blk.term.get("cond"))
+                        return (label == "T", False)
+                    return None
+            try:
+                S.run(Round(P), f)
+            except RuntimeError:
+                rule.note("%s: not explored within the state budget" % f.qname)
+                continue
+            if bad:
+                rule.violation("%s:loop-without-progress" % f.name, "the loop `%s` of %s can go round without a store to anything its condition reads: it repeats the same "
+                               "step until something outside the process changes (a busy-wait inside a call that must not wait)"
+                               % (f.show(b.term["cond"])[:50], f.name), loc=f.loc(b.term["cond"]))
+            else:
+                rule.ok("%s: every way round `%s` stores to an operand of the condition" % (f.qname, f.show(b.term["cond"])[:40]), "path exploration")
+    if nloops < 20:
+        raise Broken("C05.R5: only %d counted loops found" % nloops)
